@@ -60,6 +60,16 @@ def programs(tier, seed):
         for first, second in ((("i", var("k", ("bint", 2))), ("k", num(1, 2))), (("k", var("i", ("bint", 2))), ("i", num(0, 2))),
                               (("i", var("k", ("bint", 2))), ("k", leaf("ix", (("j", 3),), (), ("int", 2)))), (("j", num(2, 3)), ("i", var("k", ("bint", 2))))):
             out.append(("sameop:chain", subs(subs(f, (first,)), (second,))))
+    # a strided Slice substituted into a term that stays lazy, then a second Slice into the new input (normalize
+    # fuses the two substitutions into a Slice-into-Slice composition)
+    from lang.prog import slice_
+    xq = leaf("xq", (("q", 6), ("k", 2)))
+    for f in (unary("exp", xq), binary("mul", xq, leaf("w", (("k", 2),))), xq):
+        for (a1, b1, s1), (a2, b2, s2) in (((1, 6, 2), (1, 3, 1)), ((0, 6, 2), (1, 3, 2)), ((1, 6, 1), (1, 5, 3)), ((0, 5, 3), (1, 2, 1)), ((2, 6, 1), (0, 4, 2)), ((1, 6, 2), (0, 3, 2))):
+            n1 = len(range(a1, b1, s1))
+            if b2 > n1:
+                continue
+            out.append(("sameop:chain", subs(subs(f, (("q", slice_("t", a1, b1, s1, 6)),)), (("t", slice_("u", a2, b2, s2, n1)),))))
     return out
 
 
